@@ -43,7 +43,7 @@ def driver_path():
 
 
 FORBIDDEN_RE = [
-    (r"\bsorry\b", "sorry"), (r"\badmit\b", "admit"), (r"\bnative_decide\b", "native_decide"),
+    (r"\bsorry\b", "sorry"), (r"\badmit\b", "admit"), (r"\bnative_decide\b", "native_decide"), (r"\bbv_decide\b", "bv_decide"),
     (r"\bimplemented_by\b", "implemented_by"), (r"\bunsafe\s+(def|instance|theorem|inductive|structure|abbrev|opaque|axiom)\b", "unsafe decl"),
     (r"maxHeartbeats\s+0\b", "maxHeartbeats 0"), (r"^\s*(private\s+|protected\s+)?axiom\s", "axiom"), (r"\bextern\s+\"", "extern"),
 ]
